@@ -107,6 +107,7 @@ struct Case {
     declared_where: bool,
     /// the parameter is declared `T: ?Sized` and the last field is a bare `T`
     unsized_t: bool,
+    const_first: bool,
 }
 
 fn is_cmp(t: &str) -> bool {
@@ -177,7 +178,12 @@ fn gen(ch: &mut Ch, thorough: bool) -> Option<Case> {
             return None;
         }
     }
-    Some(Case { vector: ch.vector(), tr, container, fields, entry, declared_where, unsized_t })
+    // the const parameter declared BEFORE the type parameters (`<'a, const N: usize, T, U>`)
+    let const_first = ch.flag();
+    if const_first && !(fields.iter().any(|f| TYPES[f.0].2) && entry == Entry::Attr && !declared_where && !unsized_t) {
+        return None;
+    }
+    Some(Case { vector: ch.vector(), tr, container, fields, entry, declared_where, unsized_t, const_first })
 }
 
 fn mentions(ty: &str, p: &str) -> bool {
@@ -222,8 +228,9 @@ fn build(c: &Case) -> Built {
         args_names.push("U".into());
     }
     if needs_n {
-        params.push("const N: usize".into());
-        args_names.push("N".into());
+        let at = if c.const_first { needs_a as usize } else { params.len() };
+        params.insert(at, "const N: usize".into());
+        args_names.insert(at, "N".into());
     }
     let decl = format!("<{}>", params.join(", "));
     let args = format!("<{}>", args_names.join(", "));
@@ -337,7 +344,8 @@ fn build(c: &Case) -> Built {
                 a.push(u.to_string());
             }
             if needs_n {
-                a.push("2".into());
+                let at = if c.const_first { needs_a as usize } else { a.len() };
+                a.insert(at, "2".into());
             }
             insts.push(format!("<{}>", a.join(", ")));
         }
